@@ -323,6 +323,17 @@ func Main(t *testing.T, chk *Check) {
 	if c, err := desync.Compress(make([]byte, 100)); err == nil {
 		desync.Decompress(nil, c)
 	}
+	// the encoder and decoder keep one lazily built state per processor and hand them out in turn: touch them
+	// all, so that no later call pays the one-off allocation (C19 measures allocations)
+	for i := 0; i < 64; i++ {
+		w := make([]byte, 1+i*37)
+		for j := range w {
+			w[j] = byte(i * j)
+		}
+		if c, err := desync.Compress(w); err == nil {
+			desync.Decompress(nil, c)
+		}
+	}
 	cfg := &Config{Property: chk.ID, Tier: "quick", Seed: 1, NShards: 1, MaxCases: 200, MaxSeconds: 30, Mode: "run"}
 	if s := os.Getenv("VERIF_CFG"); s != "" {
 		if err := json.Unmarshal([]byte(s), cfg); err != nil {
